@@ -108,6 +108,17 @@ def drive_random(cs, scn, rec, seed, nsteps, modes, genstep_frac=0.3, reset_frac
             rec.decode_all(param_envs[0], limit=None if size <= 10000 else decode_limit)
     for e in eids:
         rec.envs[e].action_space.seed(seed + e)
+    if extras and param_envs:
+        # members of the parameterised space in a systematic way (C10: every member is accepted by step): every
+        # action type x every value of the subnet parameter the space advertises x the first and last host value
+        try:
+            nv = [int(x) for x in rec.envs[param_envs[0]].action_space.nvec]
+            members = [[ty, sn, hv, 0, 0, 0] for ty in range(nv[0]) for sn in range(nv[1]) for hv in sorted({0, nv[2] - 1})]
+        except Exception:      # noqa
+            members = []
+        for ci, vec in enumerate(members[:150]):
+            rec.step(param_envs[0], (replay.VEC_ENCS[ci % 3], vec), 0.3)
+        rec.reset(param_envs[0])
     hosts = [tuple(h) for h in cs["hosts"]]
     counter = 0
     first_draws = {}          # record mode: first recorded draw of every episode, per environment
